@@ -611,11 +611,12 @@ class Solver:
             up_dic = {}
             for lower_st in st.solver.structures:
                 up_dic[lower_st] = {}
+                inner_map = dict(lower_st.param_mapping)
                 for top, middle in st.param_mapping.items():
-                    if middle in lower_st.param_mapping:
+                    if middle in inner_map:
                         bottom = lower_st.param_mapping.pop(middle)
                         up_dic[lower_st][top] = bottom
-                    elif top not in lower_st.param_mapping:
+                    elif top not in inner_map and middle not in inner_map.values():
                         up_dic[lower_st][top] = middle
             for lower_st in st.solver.structures:
                 lower_st.param_mapping.update(up_dic[lower_st])
